@@ -191,3 +191,24 @@ Print Assumptions C10_check_filter_no_false_negative.
 Theorem C10_source_group_filter_initialised_only_when_empty : Pearl.Generated.Facts.GROUP_FILTER_INITIALISED_ONLY_WHEN_EMPTY = true.
 Proof. reflexivity. Qed.
 Print Assumptions C10_source_group_filter_initialised_only_when_empty.
+
+(* ---- children WITHOUT a filter (get_filter() = None, e.g. a storage that has no closed blob yet pushed into a second-level
+   hierarchy): the combined filter lifted to `option` (Filter/CombinedOpt.v) is one more instance of the abstract filter,
+   and it is the instance extracted for the direct hierarchy stream (`hier pushnone`). A present filterless child is
+   yielded for EVERY key, whatever else was pushed, popped, removed or off-loaded. ---- *)
+Require Pearl.Filter.CombinedOpt Pearl.Filter.CombinedOptProofs.
+Module CO := Pearl.Filter.CombinedOpt.
+Module COP := Pearl.Filter.CombinedOptProofs.
+Theorem C10_hierarchy_with_filterless_children : forall (K : N) (group : nat) (ops : list (hop CO.ocf)) (c : nat) (f : CO.ocf) (k : N),
+  (0 < group)%nat -> Forall COP.ocf_wf (pushed CO.ocf ops) ->
+  nth_error (pushed CO.ocf ops) c = Some f -> present CO.ocf (CO.oh_run group ops) c = true ->
+  CO.ocf_contains K f k = true ->
+  In c (CO.oh_iter K (CO.oh_run group ops) k) /\ CO.oh_check K (CO.oh_run group ops) k = true.
+Proof. exact COP.oh_no_false_negative. Qed.
+Theorem C10_filterless_child_never_hidden : forall (K : N) (group : nat) (ops : list (hop CO.ocf)) (c : nat) (k : N),
+  (0 < group)%nat -> Forall COP.ocf_wf (pushed CO.ocf ops) ->
+  nth_error (pushed CO.ocf ops) c = Some None -> present CO.ocf (CO.oh_run group ops) c = true ->
+  In c (CO.oh_iter K (CO.oh_run group ops) k).
+Proof. exact COP.oh_filterless_child_never_hidden. Qed.
+Print Assumptions C10_hierarchy_with_filterless_children.
+Print Assumptions C10_filterless_child_never_hidden.
